@@ -5,6 +5,13 @@ export GOFLAGS=-mod=mod GOPROXY=off GOSUMDB=off GOTOOLCHAIN=local
 export VERIF_ROOT="$(cd "$(dirname "$0")" && pwd)"
 cd "$VERIF_ROOT" || exit 2
 id="$1"; tier="${2:-quick}"; path="$3"
+# VERIF_REPO (default /repo): the tree the engines are built against; a scratch copy may be given (seed testing)
+if [ -n "$VERIF_REPO" ] && [ "$VERIF_REPO" != /repo ]; then
+  mkdir -p .scratch
+  sed "s#=> /repo\$#=> $VERIF_REPO#" go.mod > ".scratch/go.$$.mod"; cp go.sum ".scratch/go.$$.sum"
+  export GOFLAGS="-mod=mod -modfile=$VERIF_ROOT/.scratch/go.$$.mod"
+  trap 'rm -f "$VERIF_ROOT/.scratch/go.$$.mod" "$VERIF_ROOT/.scratch/go.$$.sum"' EXIT
+fi
 mkdir -p bin evidence/parts replays
 # parts of each property: engine[:part]
 parts_of() {
